@@ -17,6 +17,36 @@ type tw struct {
 	t     []string
 	kinds map[string]int // every ID the block mentions, with the kind of element it names (Ledger/Kinds.v declsB)
 	mixed bool           // some ID was declared with two kinds
+	scCreated [][]byte   // siacoin IDs created by v2 transactions, payouts and the Foundation subsidy (Ledger/Fresh.v)
+	scParents []scParent // siacoin parents consumed by v2 transactions
+}
+
+type scParent struct {
+	id   []byte
+	leaf uint64
+}
+
+// freshSC mirrors Ledger/Fresh.v fresh_sc: for every consumed siacoin element with an assigned leaf, nothing is created
+// under its ID and inputs with the same parent ID present the same leaf
+func (w *tw) freshSC() bool {
+	created := map[string]bool{}
+	for _, c := range w.scCreated {
+		created[string(c)] = true
+	}
+	for _, p := range w.scParents {
+		if p.leaf == types.UnassignedLeafIndex {
+			continue // created in this block
+		}
+		if created[string(p.id)] {
+			return false
+		}
+		for _, q := range w.scParents {
+			if string(q.id) == string(p.id) && q.leaf != p.leaf {
+				return false
+			}
+		}
+	}
+	return true
 }
 
 const (
@@ -393,6 +423,7 @@ func txn2Toks(w *tw, vc *vcollector, cs consensus.State, txn types.V2Transaction
 		w.pres(in.Parent.StateElement, ok(in.Parent.StateElement))
 		w.sce(in.Parent)
 		w.decl(in.Parent.ID[:], kSC)
+		w.scParents = append(w.scParents, scParent{append([]byte(nil), in.Parent.ID[:]...), in.Parent.StateElement.LeafIndex})
 		satisfiedToks(w, in.SatisfiedPolicy)
 		vc.satisfied(sh, in.SatisfiedPolicy)
 	}
@@ -401,6 +432,7 @@ func txn2Toks(w *tw, vc *vcollector, cs consensus.State, txn types.V2Transaction
 		oid := txn.SiacoinOutputID(txid, i)
 		w.b(oid[:])
 		w.decl(oid[:], kSC)
+		w.scCreated = append(w.scCreated, append([]byte(nil), oid[:]...))
 		w.sco(o)
 	}
 	w.i(len(txn.SiafundInputs))
@@ -412,6 +444,7 @@ func txn2Toks(w *tw, vc *vcollector, cs consensus.State, txn types.V2Transaction
 		cid := in.Parent.ID.V2ClaimOutputID()
 		w.b(cid[:])
 		w.decl(cid[:], kSC)
+		w.scCreated = append(w.scCreated, append([]byte(nil), cid[:]...))
 		satisfiedToks(w, in.SatisfiedPolicy)
 		vc.satisfied(sh, in.SatisfiedPolicy)
 	}
@@ -486,6 +519,7 @@ func txn2Toks(w *tw, vc *vcollector, cs consensus.State, txn types.V2Transaction
 		w.b(hi[:])
 		w.decl(ri[:], kSC)
 		w.decl(hi[:], kSC)
+		w.scCreated = append(w.scCreated, append([]byte(nil), ri[:]...), append([]byte(nil), hi[:]...))
 	}
 	w.i(len(txn.Attestations))
 	for i, a := range txn.Attestations {
@@ -531,7 +565,7 @@ func medianSeconds(cs consensus.State) int64 {
 }
 
 // blockToks renders one block with its supplement; nextMedian is the median timestamp of the state after it
-func blockToks(cs consensus.State, b types.Block, bs consensus.V1BlockSupplement, headerCode int, nextMedian int64, ok func(types.StateElement) bool) ([]string, bool) {
+func blockToks(cs consensus.State, b types.Block, bs consensus.V1BlockSupplement, headerCode int, nextMedian int64, ok func(types.StateElement) bool) ([]string, bool, bool) {
 	w := &tw{}
 	vc := newVC()
 	bid := b.ID()
@@ -554,11 +588,13 @@ func blockToks(cs consensus.State, b types.Block, bs consensus.V1BlockSupplement
 		oid := bid.MinerOutputID(i)
 		w.b(oid[:])
 		w.decl(oid[:], kSC)
+		w.scCreated = append(w.scCreated, append([]byte(nil), oid[:]...))
 		w.sco(mp)
 	}
 	fid := bid.FoundationOutputID()
 	w.b(fid[:])
 	w.decl(fid[:], kSC)
+	w.scCreated = append(w.scCreated, append([]byte(nil), fid[:]...))
 	w.i(len(b.Transactions))
 	for _, txn := range b.Transactions {
 		txn1Toks(w, vc, cs, txn)
@@ -590,7 +626,7 @@ func blockToks(cs consensus.State, b types.Block, bs consensus.V1BlockSupplement
 		w.z(uint64(nextMedian))
 	}
 	vc.toks(w)
-	return w.t, !w.mixed
+	return w.t, !w.mixed, w.freshSC()
 }
 
 func netLToks(n *consensus.Network) []string {
